@@ -2,6 +2,7 @@ mod agentrun;
 mod build;
 mod cands;
 mod daemon;
+mod deep;
 mod e2e;
 mod evalseq;
 mod fakecli;
@@ -33,6 +34,10 @@ fn main() {
     // When spawned through the JunosLocal hook the first argument is `fakecli`.
     if args.len() >= 2 && args[1] == "fakecli" {
         fakecli::main(&args[2..]);
+        return;
+    }
+    if args.len() >= 4 && args[1] == "deepone" {
+        deep::one(&args[2], args[3].parse().unwrap_or(1));
         return;
     }
     if args.len() < 2 {
@@ -84,6 +89,20 @@ fn main() {
             std::time::Duration::from_secs(if opts.tier == "thorough" { 300 } else { 120 }),
         );
     }
+    // The parser-facing ops run with every tracing call-site ENABLED (output discarded): the field
+    // expressions of a `debug!`/`trace!` are evaluated only when some subscriber wants the event, so
+    // code that can fail or panic inside a log statement (`%x.unescape()?`, a slice for an excerpt)
+    // would otherwise never run here, and would in a deployment started with `-vv`. (`logs` installs its
+    // own capturing subscribers; the timing-sensitive ops stay without one.)
+    if ["meta", "hello", "reply", "fuzz", "cands", "instev", "sched", "ser", "build"].contains(&op.as_str())
+        && !opts.extra.iter().any(|e| e == "no-trace")
+    {
+        use tracing_subscriber::{fmt, prelude::*, EnvFilter};
+        let _ = tracing_subscriber::registry()
+            .with(EnvFilter::new("trace"))
+            .with(fmt::layer().with_writer(std::io::sink))
+            .try_init();
+    }
     let run = std::panic::catch_unwind(std::panic::AssertUnwindSafe(|| match op.as_str() {
         "frame" => frame::main(&opts),
         "reply" => reply::main(&opts),
@@ -103,6 +122,7 @@ fn main() {
         "sendecho" => sendecho::main(&opts),
         "multirun" => multirun::main(&opts),
         "e2e" => e2e::main(&opts),
+        "deep" => deep::main(&opts),
         _ => {
             eprintln!("unknown op {op}");
             std::process::exit(2);
